@@ -130,6 +130,12 @@ func (k Knobs) config(root string) config.Config {
 	c.API.RateLimit = k.RateLimit
 	c.API.Warnings = k.Warnings
 	c.Storage.GC.Frequency = time.Duration(k.GCFreqMs) * time.Millisecond
+	if k.GCFreqMs < 0 {
+		// "no timer-driven passes in this run": the collection stays enabled (a repository is collected when it leaves the
+		// repository cache and when the store is closed, and the harness forces passes), the ticker just never fires.
+		// A negative frequency would switch the collection off altogether (what that flag does is checked by C19).
+		c.Storage.GC.Frequency = 1000000 * time.Hour
+	}
 	c.Storage.GC.GracePeriod = time.Duration(k.GCGraceMs) * time.Millisecond
 	c.Storage.GC.RepoUploadMax = k.UploadMax
 	c.Storage.GC.Untagged = tri(k.Untagged)
